@@ -287,6 +287,30 @@ theorem rbe3_rows_are_rbgeom_uset (g : GridR ℝ) (ref : V3 ℝ) :
     simp [usetRb, gridRowsMx, hq, Rb.rows, row6, V3.toList, Mx.toLists, List.ofFn_succ, Rb.toMx,
       Rb.rowAt, v6, zeroRow, Mx.zero, V3.zero, List.replicate]
 
+/-- the rank hypothesis holds as soon as the independent DOF contain the three translations of three
+grids that are not on one line (any output systems, any further DOF) -/
+theorem rbe3_fullrank_three_grids {m : ℕ} (ind : Fin m → IndDof ℝ) (ref : V3 ℝ) (g1 g2 g3 : GridR ℝ)
+    (hq : g1.q = false ∧ g2.q = false ∧ g3.q = false)
+    (hT : IsFrame g1.co.T ∧ IsFrame g2.co.T ∧ IsFrame g3.co.T)
+    (hnc : NonCollinear g1.p g2.p g3.p)
+    (hcov : ∀ g, g = g1 ∨ g = g2 ∨ g = g3 → ∀ c : Fin 6, c.val < 3 → ∃ k, (ind k).g = g ∧ (ind k).dof = c) :
+    Function.Injective (toM (indRows ind ref)).mulVec :=
+  indRows_fullrank_of_three ind ref g1 g2 g3 hq hT hnc hcov
+
+/-- `formrbe3` with the translations of three non-collinear grids among the independent DOF -/
+theorem rbe3_reproduces_rb_three_grids {m nd : ℕ} (solve : Solver ℝ)
+    (hs : ExactSolve solve) (grids : List (GridR ℝ)) (dep : GridR ℝ) (dd : Fin nd → Fin 6)
+    (ind : Fin m → IndDof ℝ) (hw : ∀ k, 0 < (ind k).w) (g1 g2 g3 : GridR ℝ)
+    (hq : g1.q = false ∧ g2.q = false ∧ g3.q = false)
+    (hT : IsFrame g1.co.T ∧ IsFrame g2.co.T ∧ IsFrame g3.co.T)
+    (hnc : NonCollinear g1.p g2.p g3.p)
+    (hcov : ∀ g, g = g1 ∨ g = g2 ∨ g = g3 → ∀ c : Fin 6, c.val < 3 → ∃ k, (ind k).g = g ∧ (ind k).dof = c)
+    (ref : V3 ℝ) :
+    toM (rbe3Grid solve grids dep dd ind).mx * toM (indRows ind ref)
+      = toM ((gridRowsMx dep ref).selRows dd) :=
+  rbe3Grid_mul_indRows solve hs grids dep dd ind hw
+    (indRows_fullrank_of_three ind dep.p g1 g2 g3 hq hT hnc hcov) ref
+
 example : ExactSolve (K := ℝ) invSolve := invSolve_exact
 
 example : (∀ k, 0 < (exInd k).w) ∧ Function.Injective (toM (indRows exInd V3.zero)).mulVec :=
@@ -380,6 +404,12 @@ example (b : CsBody ℝ) : ∀ d, buildCoords [⟨1, 0, b⟩, ⟨5, 7, b⟩, ⟨
   chain_circular_refused (fun x => x = 5 ∨ x = 7) _
     (by intro c hc; simp at hc; rcases hc with rfl | rfl | rfl <;> simp)
     (by simp) ⟨⟨5, 7, b⟩, by simp, by simp⟩
+
+/-- cards with the same id but different content are refused (`RuntimeError: duplicate but unequal …`);
+together with `chain_order_irrelevant` (whose hypothesis is the negation) this covers every input -/
+theorem chain_dup_unequal_refused (cards : List (Card (CsBody ℝ))) (h : ¬ NoConflict cards) :
+    ∃ c, buildCoords cards = .error (.dupUnequal c) :=
+  buildCoords_refuses_conflict (fun _ _ h => of_decide_eq_true h) cards h
 
 /-- a returned dictionary has the basic system under 0, every card's id as a key, and every entry is
 `mkCoord` (the A-B-C construction) of a card relative to the entry of that card's reference -/
